@@ -119,7 +119,13 @@ func (m *Matcher) pop() {
 }
 
 func (m *Matcher) merge() {
+	set := m.setBindings[len(m.setBindings)-1]
 	m.setBindings = m.setBindings[:len(m.setBindings)-1]
+	if n := len(m.setBindings); n > 0 {
+		// The bindings now belong to the enclosing frame, so that an
+		// enclosing alternative that fails later on still removes them.
+		m.setBindings[n-1] |= set
+	}
 }
 
 func (m *Matcher) Match(a Pattern, b ast.Node) bool {
